@@ -180,6 +180,10 @@ pub struct TwoCase {
 }
 
 fn tls_ca(issuer: &Issuer, cert_name: &str, ident: &str) -> Result<MockCa, String> {
+	tls_ca_for(issuer, &[(cert_name, ident)], CaPlan::default().not_after_s)
+}
+
+fn tls_ca_for(issuer: &Issuer, certs_idents: &[(&str, &str)], not_after_s: i64) -> Result<MockCa, String> {
 	let k = keys::gen("ecdsa-p256")?;
 	let pem = issuer.issue(&k.public_key_to_der().map_err(|e| e.to_string())?, &[GeneralName::Dns("localhost".into())], -3600, 86400 * 30, 2)?;
 	let certs = openssl::x509::X509::stack_from_pem(&pem).map_err(|e| e.to_string())?;
@@ -190,8 +194,8 @@ fn tls_ca(issuer: &Issuer, cert_name: &str, ident: &str) -> Result<MockCa, Strin
 		ab.add_extra_chain_cert(c.clone()).map_err(|e| e.to_string())?;
 	}
 	MockCa::start_with(
-		CaPlan { polls_authz: 0, polls_ready: 0, polls_valid: 0, ..CaPlan::default() },
-		vec![(bb::ident_key(&[("dns".to_string(), ident.to_string())]), cert_name.to_string())],
+		CaPlan { not_after_s, polls_authz: 0, polls_ready: 0, polls_valid: 0, ..CaPlan::default() },
+		certs_idents.iter().map(|(c, i)| (bb::ident_key(&[("dns".to_string(), i.to_string())]), c.to_string())).collect(),
 		Some(TlsCfg { acceptor: Arc::new(ab.build()), host: "localhost".into() }),
 	)
 }
@@ -217,6 +221,9 @@ fn exec_two(case: &TwoCase) -> Outcome {
 		Ok(c) => c,
 		Err(e) => return Outcome::Infra(e),
 	};
+	if case.b_chain == "same-url" {
+		return exec_same_url(case, &acmed, &dir, &lay, &coll, &ra);
+	}
 	let ca_b = match tls_ca(if case.b_chain == "own" { &rb } else { &ra }, "cb", "b.c18.test") {
 		Ok(c) => c,
 		Err(e) => return Outcome::Infra(e),
@@ -279,6 +286,186 @@ fn exec_two(case: &TwoCase) -> Outcome {
 	Outcome::pass(true, vec![format!("two-endpoints b_chain={} layout={}", case.b_chain, case.layout)])
 }
 
+/// Two [[endpoint]] entries for the same directory URL: "internal" lists the private root, "public" lists nothing. The certificate
+/// on "public" must fail without an order reaching the server, whatever the order of the entries (layout: internal-first | public-first).
+fn exec_same_url(case: &TwoCase, acmed: &std::path::Path, dir: &std::path::Path, lay: &Layout, coll: &HookCollector, ra: &Issuer) -> Outcome {
+	let ca = match tls_ca_for(ra, &[("ca", "a.c18.test"), ("cb", "b.c18.test")], CaPlan::default().not_after_s) {
+		Ok(c) => c,
+		Err(e) => return Outcome::Infra(e),
+	};
+	let pa = dir.join("root-a.pem").display().to_string();
+	let crt = |n: &str, e: &str, i: &str| json!({"name": n, "account": "a1", "endpoint": e, "key_type": "ecdsa-p256", "hooks": ["rec-http-01", "rec-http-01-clean", "rec-post"], "env": {bb::CERT_ENV: n}, "identifiers": [{"dns": i, "challenge": "http-01"}]});
+	let internal = json!({"name": "internal", "url": ca.directory_url(), "tos_agreed": true, "root_certificates": [pa]});
+	let public = json!({"name": "public", "url": ca.directory_url(), "tos_agreed": true});
+	let first = case.layout == "internal-first";
+	let cfg = json!({
+		"global": lay.global(),
+		"endpoint": if first { json!([internal, public]) } else { json!([public, internal]) },
+		"account": [{"name": "a1", "contacts": [{"mailto": "a@c18.test"}]}],
+		"hook": bb::std_hooks(&coll.sock),
+		"certificate": if first { json!([crt("ca", "internal", "a.c18.test"), crt("cb", "public", "b.c18.test")]) } else { json!([crt("cb", "public", "b.c18.test"), crt("ca", "internal", "a.c18.test")]) },
+	});
+	let cfg_path = bb::write_config(dir, "acmed.toml", &cfg);
+	let mut opts = bb::daemon_opts(acmed, dir, &cfg_path, "run");
+	opts.system_trust = true;
+	let sys_file = dir.join("system-store.pem");
+	let _ = std::fs::write(&sys_file, b"");
+	let empty_dir = dir.join("system-store-dir");
+	let _ = std::fs::create_dir_all(&empty_dir);
+	opts.env.push(("SSL_CERT_FILE".into(), sys_file.display().to_string()));
+	opts.env.push(("SSL_CERT_DIR".into(), empty_dir.display().to_string()));
+	let mut daemon = match Daemon::spawn(&opts) {
+		Ok(d) => d,
+		Err(e) => return Outcome::Infra(e),
+	};
+	coll.hold_when(Box::new(|r, _| bb::is_post(r)));
+	let ok = coll.wait_until(&|r| r.iter().filter(|x| bb::is_post(x)).count() >= 2, Duration::from_secs(60), &mut || daemon.state() != crate::daemon::ProcState::Alive);
+	let run = bb::finish_run(coll, daemon, if ok { bb::WaitEnd::Reached } else { bb::WaitEnd::Timeout });
+	let snap = ca.snapshot();
+	bb::cleanup(dir);
+	let d = format!("{case:?}");
+	let for_cb: Vec<String> = snap.log.iter().filter(|l| l.cert.as_deref() == Some("cb")).map(|l| l.pos.name()).collect();
+	if !for_cb.is_empty() {
+		return Outcome::fail("C18:request-to-untrusted:same-url-other-endpoint", format!("endpoint \"public\" lists no root, the server's chain only validates under the root listed by endpoint \"internal\" (same URL), yet requests for its certificate reached the server: {for_cb:?}; {d}"));
+	}
+	if !ok {
+		return Outcome::fail("C18:no-attempt-result", format!("{d}\n{}", run.stderr_tail));
+	}
+	let post = |c: &str| run.records.iter().find(|r| r.hook_id == format!("post-operation:{c}")).map(|r| (r.arg("is_success") == Some("true"), r.arg("status").unwrap_or("").to_string()));
+	match post("ca") {
+		Some((true, _)) => {}
+		other => return Outcome::fail("C18:trusted-endpoint-refused", format!("endpoint \"internal\" (root listed) failed: {other:?}; {d}")),
+	}
+	match post("cb") {
+		Some((false, _)) => {}
+		other => return Outcome::fail("C18:false-success", format!("endpoint \"public\": {other:?}, expected a failure; {d}")),
+	}
+	Outcome::pass(true, vec![format!("two-endpoints same-url layout={}", case.layout)])
+}
+
+// ------------------------------------------------ the root file changes between the attempts of one daemon
+#[derive(Clone, Debug, Serialize, Deserialize)]
+pub struct HistCase {
+	/// where the root file is listed: cli | endpoint | global
+	pub source: String,
+	/// content of the root file during attempt i: right | other | garbage | removed | empty
+	pub steps: Vec<String>,
+}
+
+fn hist_strategy() -> impl proptest::strategy::Strategy<Value = HistCase> {
+	use proptest::prelude::*;
+	let content = prop_oneof![3 => Just("right"), 2 => Just("other"), 1 => Just("garbage"), 1 => Just("removed"), 1 => Just("empty")];
+	(proptest::sample::select(vec!["cli", "endpoint", "global"]), proptest::collection::vec(content, 2..=6)).prop_map(|(s, steps)| HistCase { source: s.to_string(), steps: steps.into_iter().map(|x| x.to_string()).collect() })
+}
+
+fn exec_hist(case: &HistCase) -> Outcome {
+	let acmed = match build::acmed_inst() {
+		Ok(p) => p,
+		Err(e) => return Outcome::Infra(e),
+	};
+	let dir = scratch_dir("c18h");
+	let lay = Layout::new(&dir);
+	let coll = match HookCollector::start(&dir) {
+		Ok(c) => c,
+		Err(e) => return Outcome::Infra(e),
+	};
+	let (right, other) = match (Issuer::new(2), Issuer::new(1)) {
+		(Ok(a), Ok(b)) => (a, b),
+		_ => return Outcome::Infra("issuer".into()),
+	};
+	// certificates valid for one day: inside the default renew_delay, so a success is followed by the next attempt at once
+	let ca = match tls_ca_for(&right, &[("c1", "h.c18.test")], 86400) {
+		Ok(c) => c,
+		Err(e) => return Outcome::Infra(e),
+	};
+	let root = dir.join("root.pem");
+	let set = |content: &str| {
+		let _ = match content {
+			"right" => std::fs::write(&root, right.root_pem()),
+			"other" => std::fs::write(&root, other.root_pem()),
+			"garbage" => std::fs::write(&root, b"-----BEGIN CERTIFICATE-----\nnot base64 at all !!\n-----END CERTIFICATE-----\n"),
+			"empty" => std::fs::write(&root, b""),
+			_ => std::fs::remove_file(&root),
+		};
+	};
+	set(&case.steps[0]);
+	let rp = root.display().to_string();
+	let mut global = lay.global();
+	let mut ep = json!({"name": "e1", "url": ca.directory_url(), "tos_agreed": true});
+	match case.source.as_str() {
+		"global" => global["root_certificates"] = json!([rp]),
+		"endpoint" => ep["root_certificates"] = json!([rp]),
+		_ => {}
+	}
+	let cfg = json!({
+		"global": global,
+		"endpoint": [ep],
+		"account": [{"name": "a1", "contacts": [{"mailto": "a@c18.test"}]}],
+		"hook": bb::std_hooks(&coll.sock),
+		"certificate": [{"name": "c1", "account": "a1", "endpoint": "e1", "key_type": "ecdsa-p256", "hooks": ["rec-http-01", "rec-http-01-clean", "rec-post"],
+			"env": {bb::CERT_ENV: "c1"}, "identifiers": [{"dns": "h.c18.test", "challenge": "http-01"}]}],
+	});
+	let cfg_path = bb::write_config(&dir, "acmed.toml", &cfg);
+	let mut opts = bb::daemon_opts(&acmed, &dir, &cfg_path, "run");
+	if case.source == "cli" {
+		opts.args.push("--root-cert".into());
+		opts.args.push(rp.clone());
+	}
+	opts.system_trust = true;
+	let sys_file = dir.join("system-store.pem");
+	let _ = std::fs::write(&sys_file, b"");
+	let empty_dir = dir.join("system-store-dir");
+	let _ = std::fs::create_dir_all(&empty_dir);
+	opts.env.push(("SSL_CERT_FILE".into(), sys_file.display().to_string()));
+	opts.env.push(("SSL_CERT_DIR".into(), empty_dir.display().to_string()));
+	let mut daemon = match Daemon::spawn(&opts) {
+		Ok(d) => d,
+		Err(e) => return Outcome::Infra(e),
+	};
+	// every attempt ends with a post-operation hook, which is held while the requests of that attempt are counted and the file is changed
+	coll.hold_when(Box::new(|r, _| bb::is_post(r)));
+	let d = format!("{case:?}");
+	let mut seen = 0usize;
+	let mut result = None;
+	let mut flips = 0;
+	for (i, content) in case.steps.iter().enumerate() {
+		let ok = coll.wait_until(&|r| r.iter().filter(|x| bb::is_post(x)).count() > i, Duration::from_secs(60), &mut || daemon.state() != crate::daemon::ProcState::Alive);
+		let log = ca.snapshot().log;
+		let new: Vec<String> = log.iter().skip(seen).map(|l| l.pos.name()).collect();
+		seen = log.len();
+		let trusted = content == "right";
+		if !trusted && !new.is_empty() {
+			result = Some(Outcome::fail(format!("C18:request-to-untrusted:root-file-{content}"), format!("attempt {i}: the root file is {content} (history {:?}), the server's chain validates under none of the roots given now, yet {} requests reached it: {new:?}; {d}", &case.steps[..=i], new.len())));
+			break;
+		}
+		if !ok {
+			result = Some(Outcome::fail("C18:no-attempt-result", format!("attempt {i} did not end within 60 s; {d}\n{}", daemon.stderr_tail(8))));
+			break;
+		}
+		let recs = coll.records();
+		let post = recs.iter().filter(|x| bb::is_post(x)).nth(i).unwrap();
+		let success = post.arg("is_success") == Some("true");
+		if success != trusted {
+			result = Some(Outcome::fail(if trusted { "C18:trusted-endpoint-refused" } else { "C18:false-success" }, format!("attempt {i} with root file {content} (history {:?}): success = {success}, status {:?}; {d}\n{}", &case.steps[..=i], post.arg("status"), daemon.stderr_tail(8))));
+			break;
+		}
+		if let Some(next) = case.steps.get(i + 1) {
+			if (next == "right") != trusted {
+				flips += 1;
+			}
+			set(next);
+		}
+		coll.release_one();
+	}
+	daemon.kill();
+	coll.release();
+	bb::cleanup(&dir);
+	if let Some(r) = result {
+		return r;
+	}
+	Outcome::pass(flips > 0, vec![format!("source={}", case.source), format!("attempts={}", case.steps.len()), format!("trust-flips={}", flips.min(3))])
+}
+
 fn cases(tier: Tier) -> Vec<Case> {
 	let mut out = vec![];
 	let core = ["absent", "right", "decoy"];
@@ -336,9 +523,10 @@ fn cases(tier: Tier) -> Vec<Case> {
 }
 
 pub fn run(ctx: &Ctx, rep: &mut Report) {
-	rep.rule = "enumerated: each of the three root-certificate sources (--root-cert, endpoint root_certificates, global root_certificates) absent / holding the right root / holding a decoy root (27 combinations) x server chain {trusted, issued by an unknown root, trusted but for another host name, expired} with an empty system store; system store (SSL_CERT_FILE) holding the right or a decoy root; unreadable and malformed root files at each source with and without the right root elsewhere (thorough adds multi-file lists and a decoy system store); the endpoint addressed by name (localhost) or by a literal IP address (127.0.0.1, certificate with an iPAddress SAN); two endpoints with different private roots in one daemon, the second one presenting a chain issued under the first one's root. The mock CA is TLS-wrapped (leaf + intermediate presented). Oracle: (a) any HTTP request seen by the CA => the chain validates for the URL host under the model (right root listed or in the system store, server chain 'trusted'); (b) model says not trusted => the attempt reports failure and the CA saw zero requests; (c) model says trusted and all files readable => issuance succeeds (each source alone is honoured). Every case is non-trivial.".into();
+	rep.rule = "enumerated: each of the three root-certificate sources (--root-cert, endpoint root_certificates, global root_certificates) absent / holding the right root / holding a decoy root (27 combinations) x server chain {trusted, issued by an unknown root, trusted but for another host name, expired} with an empty system store; system store (SSL_CERT_FILE) holding the right or a decoy root; unreadable and malformed root files at each source with and without the right root elsewhere (thorough adds multi-file lists and a decoy system store); the endpoint addressed by name (localhost) or by a literal IP address (127.0.0.1, certificate with an iPAddress SAN); two endpoints with different private roots in one daemon, the second one presenting a chain issued under the first one's root; two endpoint entries for the same URL of which only one lists the private root. history (generated): one daemon, one root file listed on the command line, at the endpoint or globally, whose content is right / another root / garbage / removed / empty during each of 2..6 consecutive attempts (the file is changed while the attempt's post-operation hook is held): requests reach the server during attempt i iff the file holds the right root at that time, and the attempt's outcome follows. The mock CA is TLS-wrapped (leaf + intermediate presented). Oracle: (a) any HTTP request seen by the CA => the chain validates for the URL host under the model (right root listed or in the system store, server chain 'trusted'); (b) model says not trusted => the attempt reports failure and the CA saw zero requests; (c) model says trusted and all files readable => issuance succeeds (each source alone is honoured). Every enumerated case is non-trivial; a history is non-trivial when the trust decision changes between two attempts.".into();
 	run_replays::<Case>(ctx, rep, "matrix", &exec);
 	run_replays::<TwoCase>(ctx, rep, "two-endpoints", &exec_two);
+	run_replays::<HistCase>(ctx, rep, "history", &exec_hist);
 	if ctx.replay.is_some() {
 		return;
 	}
@@ -349,10 +537,12 @@ pub fn run(ctx: &Ctx, rep: &mut Report) {
 		two.push(TwoCase { b_chain: "foreign".into(), layout: "endpoint".into() });
 		two.push(TwoCase { b_chain: "own".into(), layout: "endpoint".into() });
 		two.push(TwoCase { b_chain: "own".into(), layout: "global-for-a".into() });
+		two.push(TwoCase { b_chain: "same-url".into(), layout: "internal-first".into() });
+		two.push(TwoCase { b_chain: "same-url".into(), layout: "public-first".into() });
 	}
 	run_list(ctx, rep, "two-endpoints", &two, default_par(), &exec_two);
+	run_prop(ctx, rep, "history", &hist_strategy(), ctx.tier.pick(48, 600), default_par(), &exec_hist);
 	if let Some(s) = rep.sections.get_mut("matrix") {
 		s.exhaustive = Some(true);
 	}
-	rep.exhaustive = Some(true);
 }
